@@ -64,14 +64,12 @@ def instrOk (S : Spec) (u : UInstr) : Bool :=
      (instrOfU u).isSome &&
      match u.out with
      | none => false
-     | some o =>
-       (termOfVar S (opaqueEnv S) (fuelOf S) o).isSome &&
-       termOfVar S (opaqueEnv S) (fuelOf S) o == (termsOf S (opaqueEnv S) (fuelOf S) u.inp).bind (pureTm u))
+     | some o => (termOfVar S (opaqueEnv S) (fuelOf S) o).isSome)
 
 /-- premises of `realizes_exec`, all executable: names do not clash, initial words are distinct, every instruction
     is well formed (operand terms exist, the commutative flag sits on a commutative binary operation only, every
-    result names one instruction and no initial word, stores have no result, every other instruction has one and its
-    term is its operation applied to the terms of its operands) -/
+    result names one instruction and no initial word, stores have no result, every other instruction has one and a term
+    for it exists) -/
 def realOk (S : Spec) : Bool := namesOk S && decide S.src.Nodup && S.instrs.all (instrOk S)
 
 /-- identifiers of memory/storage operations -/
